@@ -659,7 +659,11 @@ def to_matched_score(
     note_pairs = [
         (part_by_id[a["score_id"]][0], ppart_by_id[a["performance_id"]][0])
         for a in alignment
-        if (a["label"] == "match" and a["score_id"] in part_by_id)
+        if (
+            a["label"] == "match"
+            and a["score_id"] in part_by_id
+            and a["performance_id"] in ppart_by_id
+        )
     ]
     ms = []
     # sort according to onset (primary) and pitch (secondary)
